@@ -9,22 +9,24 @@ namespace GoJson.Props.C09
 open GoJson.Model.Stream
 
 /-- **A refill never loses or duplicates a byte and never panics.** -/
-theorem refill_preserves_input (s : S) (h : Inv s) (hnz : ∀ b ∈ window s, b ≠ 0) :
+theorem refill_preserves_input (s : S) (h : Inv s) :
     ∃ ok s', read s = some (ok, s') ∧ Inv s' ∧ unread s' = unread s ∧ consumed s' = consumed s ∧
       s'.cursor = s.cursor :=
-  read_ok s h hnz
+  read_ok s h
 
-/-- **Chunk independence of the machine.** For every NUL-free input, every cutting of it into
+/-- **Chunk independence of the machine.** For every input (a NUL byte in it is input like any other:
+the refill neither truncates the window at it nor overwrites what follows — finding "stream NUL",
+repaired), every cutting of it into
 reader pieces (any sizes, empty pieces, with or without a final reader failure) and every sequence
 of refills, resets (`reset`, `Reset`) and cursor advances, starting from a fresh stream: no
 operation panics, and the unread bytes are always exactly the input from position
 `offset + cursor` — which is therefore the exact `InputOffset`. Two different cuttings of the same
 input thus present the same bytes to the scanners. -/
 theorem machine_tracks_input (pieces : List (List UInt8)) (fail : Bool)
-    (hnz : ∀ b ∈ pieces.flatten, b ≠ 0) (ops : List Op) :
+    (ops : List Op) :
     ∃ s', ops.foldlM step (new pieces fail) = some s' ∧ Inv s' ∧
       unread s' = pieces.flatten.drop (consumed s') ∧ consumed s' ≤ pieces.flatten.length := by
-  obtain ⟨s', h1, h2⟩ := trace_tracks pieces.flatten hnz ops (new pieces fail) (tracks_new pieces fail)
+  obtain ⟨s', h1, h2⟩ := trace_tracks pieces.flatten ops (new pieces fail) (tracks_new pieces fail)
   exact ⟨s', h1, h2.1, h2.2.1, h2.2.2⟩
 
 /-- **The sentinel is always there**: in every state satisfying the invariant, the byte at
